@@ -33,6 +33,12 @@ def step_voltage_explicit(
     debug_states,
 ) -> jnp.ndarray:
     """Solve one timestep of branched nerve equations with explicit (forward) Euler."""
+    if len(np.unique(np.asarray(ncomp_per_branch))) > 1:
+        # The reshapes below put every branch into one row of a matrix.
+        raise NotImplementedError(
+            "Forward Euler is not implemented for branches with different numbers of "
+            "compartments."
+        )
     voltages = jnp.reshape(voltages, (nbranches, -1))
     voltage_terms = jnp.reshape(voltage_terms, (nbranches, -1))
     constant_terms = jnp.reshape(constant_terms, (nbranches, -1))
